@@ -253,6 +253,18 @@ U(id="C02.lzip.hist", props=["C02", "C18", "C03", "C07"], file="lzip/writer.rs",
              ("src/enc/lzma_writer.rs", "write", "Write for LZMAWriter")],
   contract="members partition the input in order, each <= member size and full except the last; each member = LZIP header(dict byte) | payload | crc32(member data) | data size | member size=6+payload+20")
 
+U(id="C17.enc", props=["C17"], file="enc/lzma2_writer.rs", extra_files=["lz/hash234.rs", "lz/lz_encoder.rs"], stubs=[],
+  harnesses=["c17_enc_estimator", "lz::hash234::verif_kani::c17_hash4_size_spec", "lz::lz_encoder::verif_kani::c17_lz_encoder_memory"],
+  functions=[("src/enc/lzma2_writer.rs", "get_memory_usage", "LZMAOptions"), ("src/enc/encoder.rs", "get_mem_usage"), ("src/enc/encoder_fast.rs", "get_memory_usage"),
+             ("src/enc/encoder_normal.rs", "get_memory_usage"), ("src/lz/lz_encoder.rs", "get_memory_usage", "LZEncoder"), ("src/lz/lz_encoder.rs", "get_buf_size"),
+             ("src/lz/hc4.rs", "get_mem_usage"), ("src/lz/bt4.rs", "get_mem_usage"), ("src/lz/hash234.rs", "get_mem_usage"), ("src/lz/hash234.rs", "get_hash4_size"), ("src/enc/lzma2_writer.rs", "get_extra_size_before")],
+  assumptions=["C17: 'peak heap' is represented by the allocation-size terms of the constructors (window buffer, hash2/3/4 tables, chain/tree, optimum table); the terms are tied to the constructors by reading, not by a proof (C17.sites not built)"],
+  contract="forall dict in [4 KiB, 1 GiB] x mode x match finder: no overflow; KiB*1024 >= sum of the allocation terms and <= sum*9/8 + 512 KiB; get_buf_size and get_hash4_size equal their specifications")
+U(id="C17.dec.lzma", props=["C17", "C06", "C19"], file="lzma_reader.rs", harnesses=["c17_lzma_memory_usage", "c17_lzma_new_mem_limit"],
+  contract_stubs=["LZDecoder::new -> records the requested size, returns an empty decoder; LZMADecoder::new -> records lc/lp/pb, zeroed object"],
+  functions=[("src/lzma_reader.rs", "get_memory_usage"), ("src/lzma_reader.rs", "get_memory_usage_by_props"), ("src/lzma_reader.rs", "get_dict_size"),
+             ("src/lzma_reader.rs", "new_mem_limit"), ("src/lzma_reader.rs", "construct1"), ("src/lzma_reader.rs", "construct2")],
+  contract="forall (dict,lc,lp)/(dict,props): Err exactly outside the ranges, no overflow, estimate >= dictionary + probability tables; new_mem_limit on any 13-byte header: need>limit => OutOfMemory before any allocation, dictionary allocated = rounded clamped size <= estimate, decoder gets the header's lc/lp/pb")
 
 # ---------------------------------------------------------------------------------------- quick-tier budget
 # Harnesses kept in the quick tier per unit; every other harness of the unit runs in the thorough tier only.
